@@ -33,8 +33,9 @@ struct Probe {
     entered: Cell<usize>,
     depth: Cell<usize>,
     log: RefCell<Vec<(String, usize)>>,
-    /// (entry index, variables at that top-level entry)
+    /// (entry index, variables at that top-level entry, collections behind handles at that entry)
     snaps: RefCell<Vec<(usize, BTreeMap<String, String>)>>,
+    state_snaps: RefCell<Vec<(usize, Vec<String>)>>,
     halt_at: Cell<usize>,
     setter: Cell<Setter>,
     to_setter: Sender<Arc<AtomicBool>>,
@@ -63,6 +64,7 @@ impl Probe {
                 }
             }
             self.snaps.borrow_mut().push((idx, vars));
+            self.state_snaps.borrow_mut().push((idx, collections_of(c.state)));
         }
         self.depth.set(self.depth.get() + 1);
         if idx == self.halt_at.get() {
@@ -156,6 +158,16 @@ fn wrap_all(commands: &mut Commands, probe: &Rc<Probe>) {
     }
 }
 
+/// the collections held in the handle table, as a sorted multiset (handle names are random: masked)
+fn collections_of(state: &std::collections::HashMap<String, duckscript::types::runtime::StateValue>) -> Vec<String> {
+    let mut v: Vec<String> = match state.get("handles") {
+        Some(duckscript::types::runtime::StateValue::SubState(m)) => m.values().map(|x| mask_handles(&format!("{:?}", abstract_state_value(x)))).collect(),
+        _ => vec![],
+    };
+    v.sort();
+    v
+}
+
 struct Rig {
     commands: Commands,
     probe: Rc<Probe>,
@@ -182,6 +194,7 @@ impl Rig {
             depth: Cell::new(0),
             log: RefCell::new(vec![]),
             snaps: RefCell::new(vec![]),
+            state_snaps: RefCell::new(vec![]),
             halt_at: Cell::new(0),
             setter: Cell::new(Setter::None),
             to_setter: tx,
@@ -204,6 +217,7 @@ impl Rig {
         p.depth.set(0);
         p.log.borrow_mut().clear();
         p.snaps.borrow_mut().clear();
+        p.state_snaps.borrow_mut().clear();
         p.halt_at.set(halt_at);
         p.setter.set(setter);
         p.stop_at.set(stop_at);
@@ -216,6 +230,7 @@ impl Rig {
         let halt = Arc::new(AtomicBool::new(preset));
         let env = Env::new(Some(Box::new(Buf::default())), Some(Box::new(Buf::default())), Some(halt.clone()));
         let r = guarded(|| runner::run_script(text, ctx, Some(env)));
+        let mut end_state: Vec<String> = vec![];
         let end = match r {
             Err(p) => Err(format!("panic: {}", p)),
             Ok(Err(e)) => Err(format!("error: {}", e)),
@@ -226,12 +241,15 @@ impl Rig {
                         *v = "<handle>".into();
                     }
                 }
+                end_state = collections_of(&c.state);
                 Ok(vars)
             }
         };
         RunObs {
             log: p.log.borrow().clone(),
             snaps: p.snaps.borrow().clone(),
+            state_snaps: p.state_snaps.borrow().clone(),
+            end_state,
             end,
             stopped_by_budget: stop_at > 0 && p.entered.get() >= stop_at,
         }
@@ -241,6 +259,8 @@ impl Rig {
 struct RunObs {
     log: Vec<(String, usize)>,
     snaps: Vec<(usize, BTreeMap<String, String>)>,
+    state_snaps: Vec<(usize, Vec<String>)>,
+    end_state: Vec<String>,
     end: Result<BTreeMap<String, String>, String>,
     stopped_by_budget: bool,
 }
@@ -363,6 +383,28 @@ fn check_program(w: &mut Worker, rig: &Rig, name: &str, text: &str, tape: &[(Key
                         failure = Some(("variables-differ".into(), what(format!("variables {:?}, expected {:?}", v, exp_vars)), k, setter));
                         break 'outer;
                     }
+                    // the returned context is the context of that boundary: the collections its variables
+                    // point to are part of it
+                    let exp_state: Option<Vec<String>> = if k == 0 {
+                        Some(vec![])
+                    } else {
+                        match base.state_snaps.iter().find(|(i, _)| *i > k) {
+                            Some((_, s)) => Some(s.clone()),
+                            None => {
+                                if base.stopped_by_budget {
+                                    None
+                                } else {
+                                    Some(base.end_state.clone())
+                                }
+                            }
+                        }
+                    };
+                    if let Some(es) = exp_state {
+                        if obs.end_state != es {
+                            failure = Some(("collections-differ".into(), what(format!("collections in the returned context {:?}, expected {:?}", obs.end_state, es)), k, setter));
+                            break 'outer;
+                        }
+                    }
                 }
             }
         }
@@ -462,7 +504,7 @@ pub fn crash_sig(_case: &Value, kind: &str) -> String {
     kind.to_string()
 }
 
-pub const RULE: &str = "programs: 30 hand-written scripts over the standard library (straight line, goto loops, while true, for-in, nested loops, error path with on_error, functions plain/scoped/in condition position, script-implemented commands, alias, scope stack; 7 of them do not terminate) and the generated block programs of C04 under fixed answer tapes; every registered command (library, flow control, harness) is re-registered behind a wrapper that logs the entry with its nesting depth and is the scheduling point. For every command entry k of the unhalted run up to the horizon, top level or nested, plus k=0 (flag set before the run), the flag is raised at that point by the command itself and, separately, by a second OS thread the wrapper hands control to over a rendezvous channel. Oracle: the halted run returns Ok; its entry log equals the unhalted log up to the end of the top-level instruction in flight; no further top-level instruction starts; returned variables equal the variables at that boundary of the unhalted run. evaluations = programs; transitions = runs; non-trivial = program with nested command entries or non-terminating";
+pub const RULE: &str = "programs: 30 hand-written scripts over the standard library (straight line, goto loops, while true, for-in, nested loops, error path with on_error, functions plain/scoped/in condition position, script-implemented commands, alias, scope stack; 7 of them do not terminate) and the generated block programs of C04 under fixed answer tapes; every registered command (library, flow control, harness) is re-registered behind a wrapper that logs the entry with its nesting depth and is the scheduling point. For every command entry k of the unhalted run up to the horizon, top level or nested, plus k=0 (flag set before the run), the flag is raised at that point by the command itself and, separately, by a second OS thread the wrapper hands control to over a rendezvous channel. Oracle: the halted run returns Ok; its entry log equals the unhalted log up to the end of the top-level instruction in flight; no further top-level instruction starts; returned variables and the collections behind the handle table equal those at that boundary of the unhalted run. evaluations = programs; transitions = runs; non-trivial = program with nested command entries or non-terminating";
 pub const ASSUMPTIONS: &[&str] = &["the setter's only visible action is one SeqCst store on the shared AtomicBool; the runner's only visible actions on it are its polls, so placing the store at every command entry plus 'before the run' covers the interleaving space at command-entry granularity", "a store landing inside a single command's Rust body is indistinguishable from a store at its entry as long as commands do not read the flag"];
 pub const EXHAUSTIVE: bool = true;
 pub const WALL_CAP_S: (u64, u64) = (55, 1500);
